@@ -5,6 +5,7 @@ FENCE_NOTE = ("Trusts: x86-64 Linux page protection and the fault error code (wr
               "and 20-40 line C models). Accesses inside mapped memory that is no arena slot are not observed.")
 
 ENGINES = [
+    {"name": "ct", "path": "harness/ct.c", "serves_properties": ["C19"], "kind_free_text": "timingsafe_* result differential + memcheck taint run"},
     {"name": "tok", "path": "harness/tok.c", "serves_properties": ["C14", "C01", "C02"], "kind_free_text": "tokenizer call-sequence driver with reference tokenizer"},
     {"name": "sortsearch", "path": "harness/sortsearch.c", "serves_properties": ["C16"], "kind_free_text": "qsort_s / bsearch_s driver with checking comparators"},
     {"name": "queries", "path": "harness/queries.c", "serves_properties": ["C01", "C02", "C05", "C10"],
@@ -60,6 +61,12 @@ META = {
                   "delimiter positions overwritten, NULL forever after the first NULL, *ptr+*dmaxp never beyond dest+dmax, *dmaxp never grows); unterminated "
                   "inputs must end in an error without any access past dmax (buffer exact-fit between PROT_NONE pages).",
              note=FENCE_NOTE),
+ "C19": dict(technique="runtime monitoring: valgrind memcheck secret-taint (regions marked undefined) + exhaustive result differential",
+             engine="ct",
+             text="Result: all byte pairs at the first difference for n 0..64 against memcmp. Data-independence: the executed code of the -O0 and -O2 builds is run under "
+                  "memcheck with both regions undefined; any branch or address depending on them is reported and attributed per call; a naive early-exit compare must "
+                  "raise reports in the same run (positive control), otherwise the verdict is inconclusive.",
+             note="Trusts valgrind memcheck's definedness tracking; observes control-flow and address dependence only, for the two builds examined (gcc 12, x86-64)."),
  "C16": dict(technique="runtime monitoring: checking comparator + post-sort order/permutation scan + linear-search reference, array between guard pages, plain and ASan builds",
              engine="sortsearch",
              text="qsort_s on exact-fit arrays between PROT_NONE pages: result must be ordered and a permutation (multiset of whole elements), every comparator "
